@@ -75,6 +75,7 @@ def _case(draw, kind):
                 stiff=(draw(st.sampled_from([1.0, 1.0, 1.0, 10.0, 40.0])) if not linear else draw(st.sampled_from([1.0, 10.0, 40.0, 100.0, 400.0]))) if kind == "implicit" else 1.0,
                 linear=linear,
                 layout=draw(st.sampled_from(["C", "C", "F"])),
+                mid_fault=draw(st.sampled_from([None, None, None, 1, 2, 4, 7, 12])),
                 prelude_fault=draw(st.sampled_from([None, None, None, 2, 5, 9, 14, 20, 33])),
                 jump_mode=draw(st.sampled_from(["full", "full", "state_one_component", "state_one_component", "state_all_components", "time_only"])),
                 jump_index=draw(st.integers(0, 5)),
@@ -341,6 +342,19 @@ def check(case):
         nd = float(next_dt)
         if np.isfinite(nd) and nd != 0 and np.sign(nd) == np.sign(float(h)):
             h = dt(np.sign(nd) * min(abs(nd), 2.0))
+        if case.get("mid_fault") is not None and step_no == 0:
+            # between two steps (of the same size, for fixed-step methods) a call with ANOTHER step size dies in the rhs
+            fault_at[0] = evals[0] + case["mid_fault"]
+            try:
+                integ(rhs, t, y, cdict, dt(2 * h))
+                labels.append("mid_call_completed")
+            except Boom:
+                labels.append("mid_call_died_in_rhs")
+            except Exception as e:
+                if exc_origin(e)[0] == "harness":
+                    raise
+                labels.append("mid_call_failed:" + type(e).__name__)
+            fault_at[0] = None
     nontrivial = n >= 2 and f.nonlinear and f.time_dependent and returned_steps >= 1
     if returned_steps >= 2:
         labels.append("consecutive_steps")
